@@ -141,6 +141,7 @@ package history
 //@   ensures [cursor] old(core.cok(h.cursor)) ==> h.cursor.pos == old(h.cursor.pos) && h.cursor.mark == old(h.cursor.mark)
 //@   ensures [cursor] h.cursor.pos == old(h.cursor.pos) || core.cclamp(h.cursor)
 //@   ensures !h.skip && !h.undoing
+//@   ensures [saved] !old(h.skip) && hcur(h) != nil ==> curlh(h) != nil && len(curlh(h).items) > 0 && curlh(h).items[len(curlh(h).items) - 1].line == htext(h)
 //@   ensures @C07 [same-history] old(hnorm(h)) ==> curlh(h) == old(curlh(h))
 //@   ensures @C07 [skip-noop] old(h.skip) ==> allobj(x, "*lineHistory", x.items == old(x.items))
 //@   ensures @C07 [others-untouched] allobj(x, "*lineHistory", x == old(curlh(h)) || !old(allocated(x)) || x.items == old(x.items))
@@ -294,8 +295,25 @@ package history
 //@ func (*Sources).getLine
 //@   props C09 C01
 //@   terminates
-//@   requires hnav(h) && (line != nil ==> cur == nil || cur.line == line)
+//@   requires hnav(h) && clean(*h.line) && (line != nil ==> cur == nil || cur.line == line)
 //@   assigns h.skip, h.undoing, h.cursor.pos, h.cursor.mark, mapof(h.lines), anymapof("map[int]*lineHistory"), anyof("lineHistory", "pos"), anyof("lineHistory", "items")
-//@   ensures result0 != nil && core.cvalid(result1) && result1.line == result0
+//@   ensures result0 != nil && core.cvalid(result1) && result1.line == result0 && allok()
 //@   ensures line != nil ==> result0 == line
+//@   ensures (result0 == line || fresh(result0)) && (result1 == cur || fresh(result1))
 //@   ensures [uses-typed-text] line == nil && old(h.hpos) == -1 && hcur(h) != nil ==> *result0 == old(*h.line)
+
+//@ func (*Sources).InsertMatch
+//@   props C09 C01
+//@   terminates
+//@   requires hnav(h) && clean(*h.line) && (line != nil ==> cur == nil || cur.line == line) && (hcur(h) != nil ==> h.hpos <= len(entries(hcur(h))))
+//@   assigns h.hpos, h.skip, h.undoing, *h.line, h.cursor.pos, h.cursor.mark, cur.pos, cur.mark, mapof(h.lines), anymapof("map[int]*lineHistory"), anyof("lineHistory", "pos"), anyof("lineHistory", "items")
+//@   ensures [sources-untouched] allobj(s, "Source", entries(s) == old(entries(s)))
+//@   ensures [entry-or-typed-text] *h.line == old(*h.line) || (hcur(h) != nil && len(entries(hcur(h))) > 0 && 1 <= h.hpos && h.hpos <= len(entries(hcur(h))) && *h.line == runes(entries(hcur(h))[len(entries(hcur(h))) - h.hpos])) || (h.hpos == -1 && curlh(h) != nil && curlh(h).pos >= 1 && curlh(h).pos <= len(curlh(h).items) && *h.line == runes(curlh(h).items[len(curlh(h).items) - curlh(h).pos].line)) || (hcur(h) != nil && len(entries(hcur(h))) == 0 && len(*h.line) == 0) || (fwd && h.hpos == -1)
+
+//@ func (*Sources).InferNext
+//@   props C09 C01
+//@   terminates
+//@   requires hvalid(h) && (hcur(h) != nil ==> h.hpos <= len(entries(hcur(h))))
+//@   assigns *h.line, h.cursor.pos, h.cursor.mark
+//@   ensures [sources-untouched] allobj(s, "Source", entries(s) == old(entries(s)))
+//@   ensures [entry-or-unchanged] *h.line == old(*h.line) || (hcur(h) != nil && any(i, 0, len(entries(hcur(h))), *h.line == runes(entries(hcur(h))[i])))
